@@ -290,6 +290,7 @@ def rule_templates(ctx, repo):
                         where = 2
                     if where is not None and isinstance(lo_, int) and isinstance(hi_, int):
                         want_len = 32 if 'scripthash' in t_ else 20
+                        hi_ = min(hi_, where + want_len) if hi_ >= 0 else hi_  # the predicate pins the script length: a bound beyond the end is the end
                         r.check((lo_, hi_) == (where, where + want_len), '%s:payload:%s' % (cname, t_[:40]), common.site_of(f, a), 'program bytes [%d:%d]' % (where, where + want_len),
                                 '%s.from_scriptPubKey takes `%s` under `%s`; the %d-byte program sits at [%d:%d]' % (cname, norm(a), t_[:50], want_len, where, where + want_len), sure=True)
     # from_scriptPubKey passes the selected chain's version
